@@ -5,6 +5,7 @@ import (
 	"encoding/hex"
 	"fmt"
 	"math/big"
+	"reflect"
 	"runtime"
 	"sync"
 	"testing"
@@ -52,7 +53,52 @@ type c18In struct {
 	Shared model.Bytes `json:"shared_input"` // decoded concurrently by every goroutine, read-only
 }
 
-var c18OpKinds = []string{"encode", "decode", "protect-unprotect", "derive-ike", "derive-child", "dh", "transforms", "eap", "eap-mac", "prf-prime", "random", "decode-shared"}
+var c18OpKinds = []string{"encode", "decode", "protect-unprotect", "derive-ike", "derive-child", "dh", "transforms", "eap", "eap-mac", "prf-prime", "random", "decode-shared",
+	"decode-modify-encode", "eap-decode-modify"}
+
+// touchReachable writes to every octet string reachable from v (exported or not, through pointers, interfaces, slices and
+// maps): a decoded value belongs to its caller, who may change it at will; anything it shares with another goroutine's value
+// (a package-level default slice, a shared empty map) then shows up as a race or as a changed result.
+func touchReachable(v reflect.Value, seen map[uintptr]bool) {
+	switch v.Kind() {
+	case reflect.Ptr:
+		if v.IsNil() || seen[v.Pointer()] {
+			return
+		}
+		seen[v.Pointer()] = true
+		touchReachable(v.Elem(), seen)
+	case reflect.Interface:
+		if !v.IsNil() {
+			touchReachable(v.Elem(), seen)
+		}
+	case reflect.Struct:
+		for i := 0; i < v.NumField(); i++ {
+			touchReachable(v.Field(i), seen)
+		}
+	case reflect.Slice:
+		if v.IsNil() {
+			return
+		}
+		if v.Type().Elem().Kind() == reflect.Uint8 {
+			b := v.Bytes()
+			b = b[:cap(b)]
+			for i := range b {
+				b[i] ^= 0xff
+			}
+			return
+		}
+		for i := 0; i < v.Len(); i++ {
+			touchReachable(v.Index(i), seen)
+		}
+	case reflect.Map:
+		if v.IsNil() {
+			return
+		}
+		for it := v.MapRange(); it.Next(); {
+			touchReachable(it.Value(), seen)
+		}
+	}
+}
 
 func c18Run(p c18Prog, shared []byte, concurrent bool) []string {
 	out := make([]string, 0, len(p.Ops))
@@ -92,6 +138,49 @@ func c18Run(p c18Prog, shared []byte, concurrent bool) []string {
 					return e
 				}
 				res = string(model.JSON(m.Normalize()))
+			case "decode-modify-encode":
+				dm := new(message.IKEMessage)
+				if e := dm.Decode(probe.Exact(op.Bytes)); e != nil {
+					res = "error"
+					return nil
+				}
+				// the decoded message is this goroutine's own: change it and send it on
+				touchReachable(reflect.ValueOf(&dm.Payloads), map[uintptr]bool{})
+				dm.Payloads.BuildNonce([]byte{byte(op.A), byte(op.B)})
+				w, e := dm.Encode()
+				if e != nil {
+					res = "encode-error"
+					return nil
+				}
+				res = hex.EncodeToString(w)
+			case "eap-decode-modify":
+				pkt := new(eap.EAP)
+				if e := pkt.Unmarshal(probe.Exact(op.Bytes)); e != nil {
+					res = "error"
+					return nil
+				}
+				if ak, ok := pkt.EapTypeData.(*eap.EapAkaPrime); ok && ak != nil {
+					if e := ak.SetAttr(eap.AT_KDF, []byte{byte(op.A), byte(op.B)}); e != nil {
+						return e
+					}
+					mac, e := pkt.CalcEapAkaPrimeAtMAC([]byte{byte(op.A), 2, 3})
+					if e != nil {
+						return e
+					}
+					if e := ak.SetAttr(eap.AT_MAC, mac); e != nil {
+						return e
+					}
+				}
+				w, e := pkt.Marshal()
+				if e != nil {
+					res = "marshal-error"
+					return nil
+				}
+				m, e := bridge.FromLibEAP(pkt)
+				if e != nil {
+					return e
+				}
+				res = hex.EncodeToString(w) + string(model.JSON(m.Normalize()))
 			case "protect-unprotect":
 				w, _, _, e := libProtect(op.Msg, sa, op.A%2 == 0, nil)
 				if e != nil {
@@ -207,13 +296,35 @@ func c18GenOp(t *rapid.T) c18Op {
 	switch op.Op {
 	case "encode", "protect-unprotect":
 		op.Msg = gen.Message(t, small)
-	case "decode":
+	case "decode", "decode-modify-encode":
 		m := gen.Message(t, small)
-		w, _ := ref.EncodeMessage(m, nil)
+		var enc *ref.Enc
+		switch rapid.IntRange(0, 5).Draw(t, "flavour") {
+		case 3, 4:
+			// a payload of a type the library does not implement somewhere in the chain (non-critical mostly)
+			rp := model.Raw{Type: unsupportedType(t), Critical: rapid.IntRange(0, 5).Draw(t, "critical") == 5, Body: gen.BytesLen(t, "rawbody", 0, 40, 0, 1, 4)}
+			pos := rapid.IntRange(0, len(m.Payloads)).Draw(t, "pos")
+			ps := append([]model.Payload(nil), m.Payloads[:pos]...)
+			ps = append(ps, model.Payload{Kind: model.KRaw, Raw: &rp})
+			m.Payloads = append(ps, m.Payloads[pos:]...)
+		case 5:
+			// a sender using the liberties of the RFC (reserved bits, critical flags on understood payloads)
+			enc = &ref.Enc{Lib: rapid.SliceOfN(rapid.Byte(), 1, 24).Draw(t, "lib"), CriticalOnSupported: rapid.Bool().Draw(t, "crit")}
+		}
+		w, _ := ref.EncodeMessage(m, enc)
 		if rapid.IntRange(0, 3).Draw(t, "mutate") == 3 {
 			w, _ = gen.Mutate(t, w, nil)
 		}
 		op.Bytes = w
+	case "eap-decode-modify":
+		e := gen.EAP(t, true)
+		switch rapid.IntRange(0, 3).Draw(t, "eapflavour") {
+		case 2:
+			e = model.EAP{Code: 2, Identifier: e.Identifier, Kind: model.EAka, Sub: 2} // e.g. AKA'-Authentication-Reject: no attributes at all
+		case 3:
+			e = model.EAP{Code: 1, Identifier: e.Identifier, Kind: model.EAka, Sub: 1, Attrs: gen.AkaAttrs(t)}
+		}
+		op.Bytes, _ = ref.EncodeEAP(e, nil)
 	case "eap":
 		e := gen.EAP(t, true)
 		op.EAP = &e
@@ -331,8 +442,11 @@ func c18Cold() c18In {
 				ee := e
 				op.EAP = &ee
 			}
-			if kind == "decode" {
+			if kind == "decode" || kind == "decode-modify-encode" {
 				op.Bytes = w
+			}
+			if kind == "eap-decode-modify" {
+				op.Bytes, _ = ref.EncodeEAP(model.EAP{Code: 2, Identifier: byte(g), Kind: model.EAka, Sub: 2}, nil)
 			}
 			p.Ops = append(p.Ops, op)
 		}
